@@ -440,6 +440,14 @@ func (cc *chainCase) variant(height uint64, block *types.Block, P, cold, warm *c
 		st = st[strings.LastIndex(st, ",")+1:]
 		c.Count("variant_upgrade:"+kinds[len(kinds)-1]+":status"+numRe.ReplaceAllString(st, "N"), 1)
 		c.Logf("height %d append-upgrade variant %s: last receipt %s", height, kinds[len(kinds)-1], st)
+		if c.Verbose {
+			vm.AppCache.Range(func(k, v interface{}) bool {
+				if a, ok := v.(*vm.APP); ok && (k.(string) == cfg.ContractFoundationAddr.String()) {
+					c.Logf("   AppCache[%v] = %p name %s bodies %d", k, a, a.Name, len(a.Module.Code.Bodies))
+				}
+				return true
+			})
+		}
 	}
 	if ref != nil && ref.OK {
 		c.Count("variants_accepted", 1)
